@@ -82,6 +82,7 @@ const (
 	tsMissing
 	tsPopulated
 	tsDefaultCwd
+	tsExplicitEmpty // WithTargetDir("") given explicitly, target = working directory
 	numTS
 )
 
@@ -93,7 +94,7 @@ func evalC06(c *Ctx, cs *Case) {
 	doc := gen.Spell(f, gen.Canonical)
 	nontrivial := merged.Size() >= 2
 	extIdx := allExt()
-	states := []int{tsEmpty, tsMissing, tsPopulated, tsDefaultCwd}
+	states := []int{tsEmpty, tsMissing, tsPopulated, tsDefaultCwd, tsExplicitEmpty}
 	routes := []int{0, 1, 2, 3}
 	if cs.Kind != "exhaustive" {
 		extIdx = []int{r.Intn(len(ExtLists)), r.Intn(len(ExtLists))}
@@ -152,6 +153,8 @@ func c06Target(j *mon.Jail, st int) (target, prefix string, allowed []string) {
 		return j.Target, j.Rel, nil
 	case tsDefaultCwd:
 		return "", j.Rel, nil
+	case tsExplicitEmpty:
+		return explicitEmptyTarget, j.Rel, nil
 	}
 	return j.Target, j.Rel, nil
 }
@@ -176,7 +179,7 @@ func c06Success(c *Ctx, cs *Case, f, merged model.Forest, doc, fkey string, ei i
 			outs = append(outs, mkdirCall(rt, doc, nil, opts))
 		}
 	}
-	if st == tsDefaultCwd {
+	if st == tsDefaultCwd || st == tsExplicitEmpty {
 		if err := withCwd(j.Target, call); err != nil {
 			c.Inconclusive(cs, "chdir: "+err.Error())
 			return
@@ -190,7 +193,7 @@ func c06Success(c *Ctx, cs *Case, f, merged model.Forest, doc, fkey string, ei i
 	defer func() { cs.Entry, cs.Opt = "", nil }()
 	c.Eval(gen.HashString(fkey+"\x00"+rt.Name+strconv.Itoa(ei*10+st)), nontrivial)
 	c.SetAdd("entries", rt.Name)
-	c.SetAdd("target_states", []string{"empty", "missing-nested", "pre-populated", "default-cwd"}[st])
+	c.SetAdd("target_states", []string{"empty", "missing-nested", "pre-populated", "default-cwd", "explicit-empty-string"}[st])
 	diff := mon.Diff(before, after)
 	det := map[string]any{"forest": fkey, "doc": doc, "ext": exts, "state": st, "diff": diff}
 	for _, o := range outs {
@@ -250,6 +253,18 @@ func c06Existing(c *Ctx, cs *Case, f, merged model.Forest, doc, fkey string, mas
 	cs.Opt = map[string]string{"mask": strconv.Itoa(mask), "as_file": strconv.FormatBool(asFile)}
 	defer func() { cs.Entry, cs.Opt = "", nil }()
 	opts := fsOpts(j.Target, nil, false, false, false, false)
+	viaCwd := (mask+map[bool]int{true: 1, false: 0}[asFile])%3 != 0
+	if viaCwd {
+		// two thirds of the cases address the target as the working directory: default or WithTargetDir("")
+		if mask%2 == 0 {
+			opts = fsOpts("", nil, false, false, false, false)
+		} else {
+			opts = fsOpts(explicitEmptyTarget, nil, false, false, false, false)
+		}
+		old, _ := os.Getwd()
+		os.Chdir(j.Target)
+		defer os.Chdir(old)
+	}
 	if !rt.FromRoot {
 		before := j.Snap()
 		o := mkdirCall(rt, doc, nil, opts)
